@@ -104,13 +104,13 @@ def scenarios(ctx):
     # the two dimensions "relative directories / relative paths" and "the working directory changes after
     # start": a nested pair of relative directories added and removed, the preset cwd entry removed, chdir
     # to every directory of `dirs` (the start directory among them: leaving and coming back)
-    relwd = dict(name="relwd", acts=relwd_acts, maxtab=4, maxrx=1, maps=REL_MAPS[:2], keys=[CWD, REL_MAPS[0][0]],
+    relwd = dict(name="relwd", acts=relwd_acts if q else relwd_acts + ["ResetMap"], maxtab=4 if q else 5, maxrx=1,
+                 maps=REL_MAPS[:2] if q else REL_MAPS, keys=[CWD, REL_MAPS[0][0]],
                  dirs=STD_DIRS[:3] if q else STD_DIRS, rxs=[VOLRX], assumes=RELWD_ASSUMES)
     res = []
     res.append(dict(std, name="std-test", testing=True, rand=(30, 12) if q else (400, 24),
                     mcs=[dict(name="tab", acts=tab_acts, maxtab=5 if q else 8, maxrx=1, maps=std["maps"], rxs=[VOLRX])] +
-                        ([] if q else [dict(name="rx", acts=rx_acts, maxtab=8, maxrx=3, maps=[], rxs=STD_RXS, assumes=RX_ASSUMES),
-                                       dict(relwd, acts=relwd_acts + ["ResetMap"], maxtab=5, maps=REL_MAPS)])))
+                        ([] if q else [dict(name="rx", acts=rx_acts, maxtab=8, maxrx=3, maps=[], rxs=STD_RXS, assumes=RX_ASSUMES)])))
     res.append(dict(std, name="std-prod", testing=False, rand=(30, 12) if q else (400, 24),
                     mcs=[dict(name="rx", acts=rx_acts, maxtab=8, maxrx=2 if q else 3, maps=[], rxs=STD_RXS[1:] if q else STD_RXS,
                               assumes=RX_ASSUMES)] +
